@@ -645,20 +645,23 @@ class BasicLexer(AbstractBasicLexer):
         self._search_scanner: Optional[Scanner] = None
 
     def _build_scanner(self) -> Scanner:
-        terminals, self.callback = _create_unless(self.terminals, self.g_regex_flags, self.re, self.use_bytes)
-        assert all(self.callback.values())
+        terminals, callback = _create_unless(self.terminals, self.g_regex_flags, self.re, self.use_bytes)
+        assert all(callback.values())
 
         for type_, f in self.user_callbacks.items():
-            if type_ in self.callback:
+            if type_ in callback:
                 # Already a callback there, probably UnlessCallback.
                 # Bind ``type_`` per iteration; otherwise every CallChain's
                 # condition closes over the loop variable and checks the last
                 # terminal's name, silently skipping the other callbacks.
-                self.callback[type_] = CallChain(
-                    self.callback[type_], f, lambda t, type_=type_: t.type == type_
+                callback[type_] = CallChain(
+                    callback[type_], f, lambda t, type_=type_: t.type == type_
                 )
             else:
-                self.callback[type_] = f
+                callback[type_] = f
+
+        # Publish the complete dict once: another thread may already be lexing with it.
+        self.callback = callback
 
         return Scanner(terminals, self.g_regex_flags, self.re, self.use_bytes)
 
